@@ -136,6 +136,15 @@ func c05DumpReplays(dir string) {
 	cases := c05MinimalCases()
 	_ = os.MkdirAll(dir, 0o755)
 	{
+		// F14 (YAML path): float-notation integers beyond 2^53
+		yc := c05One(c05Typ{K: "int64"}, nil, c05Num("9223372036854774784.0"))
+		raw, _ := json.Marshal(yc)
+		rf := kit.ReplayFile{Property: "C05", Rule: "yaml", Case: raw,
+			Message: "minimal input of finding yaml-float-notation-int-rounded: " + c05Describe(&yc)}
+		b, _ := json.MarshalIndent(rf, "", " ")
+		_ = os.WriteFile(filepath.Join(dir, "yaml-yaml-float-notation-int-rounded.json"), b, 0o644)
+	}
+	{
 		nd := c05NestedDefaultCase()
 		raw, _ := json.Marshal(nd)
 		rf := kit.ReplayFile{Property: "C05", Rule: "json", Case: raw,
